@@ -19,11 +19,12 @@ def register(PROPS):
         'rule': 'case = one pair of first two events; everything below it is explored exhaustively to the depth bound with a visited table per case; '
                 'states/transitions/traces are summed over cases (a state reached under two different first pairs is counted twice); non-trivial = '
                 'the subtree holds >= 2 distinct states',
-        'bound': {'quick': 'depth 5 (drift run depth 4)', 'thorough': 'depth 7 (drift run depth 6)'},
+        'bound': {'quick': 'depth 5 at T0 = 2030-01-01 (drift run depth 4; a further run at T0 = 2028-03-01, a leap-year March, depth 4)', 'thorough': 'depth 7 (drift run depth 6, leap-March run depth 5)'},
         'counter_map': {'states': 'states', 'transitions': 'transitions', 'traces_validated_against_impl': 'traces'},
         'drivers': [
             D('e2_explore', ['prop=C04', 'depth=5', '--case-timeout', '60'], ['prop=C04', 'depth=7', '--case-timeout', '300'], label='depth'),
             D('e2_explore', ['prop=C04', 'depth=4', 'drift=1.5', '--case-timeout', '60'], ['prop=C04', 'depth=6', 'drift=1.5', '--case-timeout', '300'], label='drift'),
+            D('e2_explore', ['prop=C04', 'depth=4', 't0=1835481600', '--case-timeout', '60'], ['prop=C04', 'depth=5', 't0=1835481600', '--case-timeout', '300'], label='leap-march'),
             D('e2_explore', ['prop=C04', 'depth=3', '--case-timeout', '60'], ['prop=C04', 'depth=4', '--case-timeout', '120'], label='asan', variant='asan'),
         ],
         'assumptions': ['a task with nothing left to run (exhausted and fired, or loaded without a future occurrence) may be dropped by the daemon '
